@@ -284,6 +284,7 @@ func (s *Service) Stop(drainTimeout time.Duration, message string) error {
 	}
 
 	slog.Info("Service stopped", "service", s.name)
+	simYield("service.beforeDrain", s.name)
 
 	s.Drain(drainTimeout)
 	slog.Info("Service drained", "service", s.name)
@@ -297,6 +298,7 @@ func (s *Service) Pause(drainTimeout time.Duration, pauseTimeout time.Duration) 
 	}
 
 	slog.Info("Service paused", "service", s.name)
+	simYield("service.beforeDrain", s.name)
 
 	s.Drain(drainTimeout)
 	slog.Info("Service drained", "service", s.name)
@@ -419,10 +421,12 @@ func (s *Service) serviceRequestWithTarget(w http.ResponseWriter, r *http.Reques
 		return
 	}
 
+	simYield("service.gate", r)
 	if s.handlePausedAndStoppedRequests(w, r) {
 		return
 	}
 
+	simYield("service.afterGate", r)
 	lb := s.loadBalancerForRequest(r)
 	lb.ServeHTTP(w, r)
 }
